@@ -1027,6 +1027,158 @@ Proof.
   intros H. rewrite G2, (NI eq_refl) in H. discriminate.
 Qed.
 
+(* ---------------------------------------------------------------- the root *)
+(* the group at the bottom of the group stack is the node scanRegex started with: Capture 0 *)
+Definition gsig (g : rnode) : Z * Z * Z := (n_t g, n_m g, n_n g).
+Definition bottom (st : mst) : Z * Z * Z := last (map (fun f => gsig (fst (fst f))) (ms_stack st)) (gsig (ms_group st)).
+Definition rinv (st : mst) : Prop := bottom st = (T_Capture, 0, -1).
+
+Lemma last_cons {A} (x : A) l d : last (x :: l) d = last l x.
+Proof. revert x d. induction l as [|y l IH]; intros x d; [reflexivity|]. cbn [last]. destruct l; [reflexivity|]. apply IH. Qed.
+
+Lemma rinv_keep st st' : rinv st -> ms_stack st' = ms_stack st -> gsig (ms_group st') = gsig (ms_group st) -> rinv st'.
+Proof. unfold rinv, bottom. intros H S G. rewrite S, G. exact H. Qed.
+
+Lemma add_concatenate_stk st st' : add_concatenate st = POk st' -> ms_stack st' = ms_stack st.
+Proof.
+  unfold Parser.add_concatenate. destruct (ms_unit st) as [u|]; [|discriminate].
+  destruct (add_child (ms_concat st) u); cbn [of_res pbind]; try discriminate. intros H. inversion H; reflexivity.
+Qed.
+Lemma add_concatenate3_stk st lazy mn mx st' : add_concatenate3 st lazy mn mx = POk st' -> ms_stack st' = ms_stack st.
+Proof.
+  unfold Parser.add_concatenate3. destruct (ms_unit st) as [u|]; [|discriminate].
+  destruct (make_quantifier cat_in u lazy mn mx) as [qq| | |]; cbn [of_res pbind]; try discriminate.
+  destruct (add_child (ms_concat st) qq); cbn [of_res pbind]; try discriminate. intros H. inversion H; reflexivity.
+Qed.
+Lemma scan_quantifier_stk st p st' q : scan_quantifier st p = POk (st', q) -> ms_stack st' = ms_stack st.
+Proof.
+  unfold Parser.scan_quantifier. destruct p as [|ch p1]; [discriminate|].
+  destruct (ms_unit st) as [u|]; [|intros H; inversion H; reflexivity].
+  match goal with |- pbind ?a _ = _ -> _ => destruct a as [[[[mn mx] q0]|]|e q0| | |] end; cbn [pbind]; try discriminate.
+  - destruct (scan_blank_full (ms_o st) q0) as [q1|e q1| | |]; cbn [pbind]; try discriminate.
+    destruct (if hd_is q1 63 then (true, tl q1) else (false, q1)) as [lazy q2].
+    destruct (mx <? mn); [discriminate|].
+    destruct (add_concatenate3 st lazy mn mx) as [st1|e q3| | |] eqn:E3; cbn [pbind]; try discriminate.
+    intros H. inversion H; subst. eapply add_concatenate3_stk. exact E3.
+  - destruct (add_concatenate st) as [st1|e q3| | |] eqn:E1; cbn [pbind]; try discriminate.
+    intros H. inversion H; subst. eapply add_concatenate_stk. exact E1.
+Qed.
+Lemma after_unit_stk st p st' q wq : after_unit st p = POk (st', q, wq) -> ms_stack st' = ms_stack st.
+Proof.
+  unfold Parser.after_unit. destruct (scan_blank_full (ms_o st) p) as [p1|e p1| | |]; cbn [pbind]; try discriminate.
+  destruct (is_nil p1 || negb (is_true_quantifier p1)).
+  - destruct (add_concatenate st) as [st1|e q3| | |] eqn:E1; cbn [pbind]; try discriminate.
+    intros H. inversion H; subst. eapply add_concatenate_stk. exact E1.
+  - destruct (scan_quantifier st p1) as [[st1 q1]|e q3| | |] eqn:E1; cbn [pbind]; try discriminate.
+    intros H. inversion H; subst. eapply scan_quantifier_stk. exact E1.
+Qed.
+
+Lemma unit_then_r st1 x q st' nxt : rinv st1 ->
+  (pdo r <- after_unit (set_unit st1 (Some x)) q ; let '(st', q', wq) := r in POk (st', Some (q', wq))) = POk (st', nxt) -> rinv st'.
+Proof.
+  intros Hr E.
+  destruct (after_unit (set_unit st1 (Some x)) q) as [[[st2 q2] wq]|e q0| | |] eqn:EA; cbn [pbind] in E; try discriminate.
+  inversion E; subst. destruct (after_unit_grp _ _ _ _ _ EA) as [G1 _]. pose proof (after_unit_stk _ _ _ _ _ EA) as G2.
+  cbn [set_unit ms_group ms_stack] in G1, G2. eapply rinv_keep; [exact Hr | exact G2 | rewrite G1; reflexivity].
+Qed.
+
+Lemma gsig_set_kids g k : gsig (set_kids g k) = gsig g.
+Proof. destruct g; reflexivity. Qed.
+
+Lemma scan_round_r mco st p wasq st' nxt : rinv st -> scan_round tb mco st p wasq = POk (st', nxt) -> rinv st'.
+Proof.
+  intros Hr E. unfold Parser.scan_round in E.
+  destruct (scan_blank_full (ms_o st) p) as [p0|e q| | |]; cbn [pbind] in E; try discriminate.
+  destruct (take_run (ms_o st) p0) as [run p1].
+  destruct (scan_blank_full (ms_o st) p1) as [p2|e q| | |]; cbn [pbind] in E; try discriminate.
+  assert (RUN : forall isq st1, add_run st run isq = POk st1 -> rinv st1).
+  { intros isq st1 Ea. destruct (add_run_fields _ _ _ _ Ea) as [_ [_ [_ [_ [G5 G6]]]]]. eapply rinv_keep; [exact Hr | exact G5 | rewrite G6; reflexivity]. }
+  destruct p2 as [|ch p3].
+  { destruct (add_run st run false) as [st1| | | |] eqn:Ea; cbn [pbind] in E; try discriminate. inversion E; subst. eapply RUN; exact Ea. }
+  destruct (negb (is_special ch)).
+  { destruct (add_run st run false) as [st1| | | |] eqn:Ea; cbn [pbind] in E; try discriminate. inversion E; subst. eapply RUN; exact Ea. }
+  destruct (add_run st run (is_quantifier ch)) as [st1| | | |] eqn:Ea; cbn [pbind] in E; try discriminate.
+  pose proof (RUN _ _ Ea) as R1.
+  destruct (ch =? 91).
+  { destruct (Parser.cs_scan is_word_char cat_name (S (length p3)) false (ms_o st) p3) as [[syn q]|e q| | |]; cbn [pbind] in E; try discriminate.
+    destruct (class_node (ms_o st) syn) as [x| | | |]; cbn [pbind] in E; try discriminate. eapply unit_then_r; eassumption. }
+  destruct (ch =? 40).
+  { unfold Parser.round_open in E.
+    destruct (useRE2 (ms_o st1) && negb (ms_ign st1) && hd_is p3 63 && nth_is 1 p3 80 && nth_is 2 p3 61).
+    { destruct (python_backref is_word_char tb (ms_o st1) (skipn 3 p3)) as [[x q]|e q| | |]; cbn [pbind] in E; try discriminate.
+      eapply unit_then_r; eassumption. }
+    destruct (Parser.group_open is_word_char tb mco (n_t (ms_group st1)) (mkGV (ms_o st1) (ms_ign st1) (ms_autocap st1)) p3) as [[[g v] q]|e q| | |];
+      cbn [pbind] in E; try discriminate.
+    destruct g as [gn|]; inversion E; subst; unfold rinv, bottom in *; cbn [start_group push_group ms_stack ms_group map fst] in *.
+    - rewrite last_cons. exact R1.
+    - exact R1. }
+  destruct (ch =? 124).
+  { destruct (add_alternate st1) as [st2|e q| | |] eqn:E2; cbn [pbind] in E; try discriminate. inversion E; subst.
+    unfold Parser.add_alternate in E2. destruct (is_cond_t (n_t (ms_group st1))).
+    - destruct (add_child (ms_group st1) (reverse_left (ms_concat st1))) as [g'| | |] eqn:Eg; cbn [of_res pbind] in E2; try discriminate.
+      inversion E2; subst. unfold Parser.add_child in Eg. destruct (reduce cat_in (reverse_left (ms_concat st1))); cbn [bind] in Eg; try discriminate.
+      inversion Eg; subst. eapply rinv_keep; [exact R1 | reflexivity | cbn [ms_group]; apply gsig_set_kids].
+    - destruct (add_child (ms_alt st1) (reverse_left (ms_concat st1))) as [a'| | |]; cbn [of_res pbind] in E2; try discriminate.
+      inversion E2; subst. eapply rinv_keep; [exact R1 | reflexivity | reflexivity]. }
+  destruct (ch =? 41).
+  { unfold Parser.round_close in E. destruct (ms_stack st1) as [|[[g a] c] stk] eqn:Es; [discriminate|].
+    destruct (add_group st1) as [st2|e q| | |] eqn:E2; cbn [pbind] in E; try discriminate.
+    assert (S2 : ms_stack st2 = ms_stack st1).
+    { unfold Parser.add_group in E2. destruct (is_cond_t (n_t (ms_group st1))).
+      - destruct (add_child (ms_group st1) (reverse_left (ms_concat st1))) as [g'| | |]; cbn [of_res pbind] in E2; try discriminate.
+        match type of E2 with (if ?cc then _ else _) = _ => destruct cc end; [discriminate|]. inversion E2; reflexivity.
+      - destruct (add_child (ms_alt st1) (reverse_left (ms_concat st1))) as [a'| | |]; cbn [of_res pbind] in E2; try discriminate.
+        destruct (add_child (ms_group st1) a') as [g'| | |]; cbn [of_res pbind] in E2; try discriminate. inversion E2; reflexivity. }
+    unfold Parser.pop_group in E. rewrite S2, Es in E.
+    assert (RB : last (map (fun f => gsig (fst (fst f))) stk) (gsig g) = (T_Capture, 0, -1)).
+    { unfold rinv, bottom in R1. rewrite Es in R1. cbn [map fst] in R1. rewrite last_cons in R1. exact R1. }
+    assert (FIN : forall st3, ms_stack st3 = stk -> gsig (ms_group st3) = gsig g ->
+              (pdo st4 <- pop_options st3 ;
+               match ms_unit st4 with
+               | None => POk (st4, Some (p3, false))
+               | Some _ => pdo r <- after_unit st4 p3 ; let '(st', q', wq) := r in POk (st', Some (q', wq))
+               end) = POk (st', nxt) -> rinv st').
+    { intros st3 F1 F2 E3. unfold pop_options in E3. destruct (ms_os st3) as [|o1 os1]; [discriminate|]. cbn [pbind] in E3.
+      set (st4 := mkMS (ms_stack st3) (ms_group st3) (ms_alt st3) (ms_concat st3) (ms_unit st3) o1 os1 (ms_ign st3) (ms_autocap st3)) in *.
+      assert (R4 : rinv st4) by (unfold rinv, bottom; cbn [st4 ms_stack ms_group]; rewrite F1, F2; exact RB).
+      destruct (ms_unit st4) as [u4|].
+      - destruct (after_unit st4 p3) as [[[st5 q5] wq]|e q0| | |] eqn:EA; cbn [pbind] in E3; try discriminate.
+        inversion E3; subst. destruct (after_unit_grp _ _ _ _ _ EA) as [G1 _]. pose proof (after_unit_stk _ _ _ _ _ EA) as G2.
+        eapply rinv_keep; [exact R4 | exact G2 | rewrite G1; reflexivity].
+      - inversion E3; subst. exact R4. }
+    destruct ((n_t g =? T_ExprCond) && match n_kids g with [] => true | _ => false end).
+    - destruct (ms_unit st2) as [u|]; [|discriminate].
+      destruct (add_child g u) as [g2| | |] eqn:Eg; cbn [of_res pbind] in E; try discriminate.
+      eapply FIN; [| | exact E]; cbn [ms_stack ms_group]; [reflexivity|].
+      unfold Parser.add_child in Eg. destruct (reduce cat_in u); cbn [bind] in Eg; try discriminate. inversion Eg; subst. apply gsig_set_kids.
+    - cbn [pbind] in E. eapply FIN; [| | exact E]; reflexivity. }
+  destruct (ch =? 92).
+  { destruct (Parser.scan_backslash_full is_word_char to_lower simple_fold cat_in cat_name false tb (ms_o st) p3) as [[b q]|e q| | |]; cbn [pbind] in E; try discriminate.
+    destruct b as [x|]; [|discriminate]. eapply unit_then_r; eassumption. }
+  destruct ((ch =? 94) || (ch =? 36) || (ch =? 46)).
+  { destruct (simple_unit (ms_o st) ch) as [x| | | |]; cbn [pbind] in E; try discriminate. eapply unit_then_r; eassumption. }
+  destruct ((ch =? 123) || (ch =? 42) || (ch =? 43) || (ch =? 63)); [|discriminate].
+  destruct (ms_unit st1) as [u|]; [|discriminate].
+  destruct (after_unit st1 (ch :: p3)) as [[[st2 q2] wq]|e q0| | |] eqn:EA; cbn [pbind] in E; try discriminate.
+  inversion E; subst. destruct (after_unit_grp _ _ _ _ _ EA) as [G1 _]. pose proof (after_unit_stk _ _ _ _ _ EA) as G2.
+  eapply rinv_keep; [exact R1 | exact G2 | rewrite G1; reflexivity].
+Qed.
+
+(* the unit addGroup makes has the type and numbers of the group *)
+Lemma add_group_unit_sig st st' u : add_group st = POk st' -> ms_unit st' = Some u ->
+  gsig u = gsig (ms_group st) /\ n_o u = n_o (ms_group st).
+Proof.
+  unfold Parser.add_group. intros E Eu. destruct (is_cond_t (n_t (ms_group st))).
+  - destruct (add_child (ms_group st) (reverse_left (ms_concat st))) as [g'| | |] eqn:Eg; cbn [of_res pbind] in E; try discriminate.
+    match type of E with (if ?cc then _ else _) = _ => destruct cc end; [discriminate|]. inversion E; subst. cbn in Eu. inversion Eu; subst.
+    unfold Parser.add_child in Eg. destruct (reduce cat_in (reverse_left (ms_concat st))); cbn [bind] in Eg; try discriminate. inversion Eg; subst.
+    destruct (ms_group st); split; reflexivity.
+  - destruct (add_child (ms_alt st) (reverse_left (ms_concat st))) as [a'| | |]; cbn [of_res pbind] in E; try discriminate.
+    destruct (add_child (ms_group st) a') as [g'| | |] eqn:Eg; cbn [of_res pbind] in E; try discriminate. inversion E; subst. cbn in Eu. inversion Eu; subst.
+    unfold Parser.add_child in Eg. destruct (reduce cat_in a'); cbn [bind] in Eg; try discriminate. inversion Eg; subst.
+    destruct (ms_group st); split; reflexivity.
+Qed.
+
 (* the end of scanRegex: the root group is closed and becomes the tree *)
 Lemma scan_end_o st st' u : mbody st -> oinv st -> einv st -> ms_ign st = false ->
   add_group st = POk st' -> ms_unit st' = Some u -> wf u.
@@ -1107,6 +1259,41 @@ Proof.
   destruct (ms_unit st') as [u|] eqn:EU; [|discriminate]. inversion ES; subst u.
   exact (scan_end_o any (captab_main tb) (fun _ _ => eq_refl) (fun _ _ _ => eq_refl) is_word_char to_lower simple_fold participates cat_in cat_name
            st st' t (proj1 IvF) OF EF GF EG EU).
+Qed.
+
+Lemma root_loop tb mco fuel : forall st p wasq stF, rinv st ->
+  scan_loop_full fuel tb mco st p wasq = POk stF -> rinv stF.
+Proof.
+  induction fuel as [|f IH]; intros st p wasq stF Hr E; [discriminate|].
+  cbn [Parser.scan_loop_full] in E. destruct p as [|c p']; [inversion E; subst; exact Hr|].
+  destruct (scan_round is_word_char to_lower simple_fold participates cat_in cat_name tb mco st (c :: p') wasq) as [[st' nxt]|e q| | |] eqn:ER;
+    cbn [pbind] in E; try discriminate.
+  pose proof (scan_round_r tb is_word_char to_lower simple_fold participates cat_in cat_name mco st (c :: p') wasq st' nxt Hr ER) as Hr'.
+  destruct nxt as [[q wq]|]; [eapply IH; eassumption | inversion E; subst; exact Hr'].
+Qed.
+
+(* the root of every tree is the node scanRegex starts with: Capture 0, not balancing *)
+Theorem parse_tree_root o mco_flag p t caps captop :
+  parse is_word_char to_lower simple_fold participates cat_in cat_name o mco_flag p = Ok (PR_Tree t caps captop) ->
+  n_t t = T_Capture /\ n_m t = 0 /\ n_n t = -1.
+Proof.
+  intros E. unfold Parser.parse in E.
+  destruct (negb pl_bounds_ok); [discriminate|].
+  destruct (negb (forallb (fun c => 0 <=? c) p)); [discriminate|].
+  set (mco := mco_flag || useE o || useRE2 o) in *.
+  destruct (count_captures is_word_char to_lower simple_fold cat_in cat_name mco o p) as [tb|e q| | |]; cbn [pbind] in E; try discriminate.
+  destruct (scan_regex is_word_char to_lower simple_fold participates cat_in cat_name (captab_main tb) mco o p) as [t0|e q| | |] eqn:ES;
+    cbn [pbind] in E; try discriminate.
+  inversion E; subst t0. clear E.
+  unfold Parser.scan_regex in ES.
+  set (st0 := mkMS [] (mk_node_mn T_Capture o 0 (-1)) (mk_node T_Alternate o) (mk_node T_Concatenate o) None o [] false 1) in *.
+  destruct (scan_loop_full (S (length p)) (captab_main tb) mco st0 p false) as [st| | | |] eqn:ELP; cbn [pbind] in ES; try discriminate.
+  pose proof (root_loop (captab_main tb) mco (S (length p)) st0 p false st eq_refl ELP) as RF.
+  destruct (ms_stack st) eqn:Es; [|discriminate].
+  destruct (add_group cat_in st) as [st'| | | |] eqn:EG; cbn [pbind] in ES; try discriminate.
+  destruct (ms_unit st') as [u|] eqn:EU; [|discriminate]. inversion ES; subst u.
+  destruct (add_group_unit_sig cat_in st st' t EG EU) as [SG _].
+  unfold rinv, bottom in RF. rewrite Es in RF. cbn [map last] in RF. rewrite <- SG in RF. unfold gsig in RF. inversion RF. auto.
 Qed.
 
 End Shape.
